@@ -162,16 +162,16 @@ pub enum Cb {
 
 type Trace = Arc<Mutex<Vec<(u64, Cb)>>>;
 
-struct Record {
-    sc: DtScenario,
-    trace: Vec<(u64, Cb)>,
-    result: Option<String>,
-    out_frames: Vec<i32>,
-    steps: u64,
-    decisions: u64,
-    panics: Vec<crate::core::exec::NodePanic>,
-    step_limit: bool,
-    fed: usize,
+pub struct Record {
+    pub sc: DtScenario,
+    pub trace: Vec<(u64, Cb)>,
+    pub result: Option<String>,
+    pub out_frames: Vec<i32>,
+    pub steps: u64,
+    pub decisions: u64,
+    pub panics: Vec<crate::core::exec::NodePanic>,
+    pub step_limit: bool,
+    pub fed: usize,
 }
 
 struct Yield(bool);
@@ -188,7 +188,7 @@ impl std::future::Future for Yield {
     }
 }
 
-async fn run(sc: &DtScenario) -> Record {
+pub async fn run(sc: &DtScenario) -> Record {
     let policy = match sc.policy {
         0 => Policy::Lowest,
         1 => Policy::RoundRobin,
@@ -375,7 +375,7 @@ async fn run(sc: &DtScenario) -> Record {
 }
 
 /// The reference fold: expected callbacks for a prefix of the script.
-fn reference(sc: &DtScenario) -> (Vec<Cb>, bool) {
+pub fn reference(sc: &DtScenario) -> (Vec<Cb>, bool) {
     #[derive(PartialEq)]
     enum St {
         Unlinked,
@@ -483,11 +483,11 @@ fn reference(sc: &DtScenario) -> (Vec<Cb>, bool) {
     (out, terminated)
 }
 
-fn same_kind(a: &Cb, b: &Cb) -> bool {
+pub fn same_kind(a: &Cb, b: &Cb) -> bool {
     std::mem::discriminant(a) == std::mem::discriminant(b)
 }
 
-fn check(rec: &Record) -> Vec<Violation> {
+pub fn check(rec: &Record) -> Vec<Violation> {
     let mut out = vec![];
     let sc = &rec.sc;
     let frag = if sc.in_cap < 4096 { "fragmented" } else { "whole_frames" };
@@ -568,7 +568,7 @@ fn check(rec: &Record) -> Vec<Violation> {
     out
 }
 
-fn cb_name(c: &Cb) -> &'static str {
+pub fn cb_name(c: &Cb) -> &'static str {
     match c {
         Cb::Linked => "linked",
         Cb::Synced(..) => "synced",
